@@ -447,6 +447,16 @@ def _apply(script, old, as_bytes, materialize=False):
         lines = [l.encode() for l in old]
     else:
         lines = list(old)
+    # the script may be any iterable of lines: a list, or a one-shot source (iterator / generator / open file)
+    _apply.calls = getattr(_apply, "calls", 0) + 1
+    form = _apply.calls % 4
+    if form == 1:
+        script = iter(script)
+    elif form == 2:
+        script = (s for s in script)
+    elif form == 3:
+        import io
+        script = io.BytesIO(b"".join(script)) if as_bytes else io.StringIO("".join(script))
     if materialize:
         # the parsed patches are values of their own: collecting them first and applying them later must give the same
         ds.patch_lines(lines, list(ds.patches_from_ed_script(script)))
